@@ -231,6 +231,22 @@ class Play:
         return it
 
     async def construct(self, name="main", model=None, Hh=None, state0=None):
+        if name == "sib" and "sib_start" in self.case:
+            # the sibling instance starts elsewhere (or at the declared initial state although the subject used start_value)
+            saved = self.cfg
+            self.cfg = dict(saved)
+            self.cfg.pop("start_value", None)
+            j = self.case["sib_start"]
+            if j is not None:
+                s_ = self.spec["states"][j % len(self.spec["states"])]
+                self.cfg["start_value"] = s_["value"] if "value" in s_ else s_["id"]
+            try:
+                return await self._construct(name, model, Hh, state0)
+            finally:
+                self.cfg = saved
+        return await self._construct(name, model, Hh, state0)
+
+    async def _construct(self, name="main", model=None, Hh=None, state0=None):
         r = self.rendered
         Hh = Hh or r.new_H()
         Hh.depth = bool(self.case.get("depth"))
